@@ -618,7 +618,7 @@ theorem mem_leafPaths_flip : ∀ (o : OTree) (F : Path → Bool) (q' : Path) (fa
             by simp [Path.flipPos, hF, Path.swapNat], rfl⟩
 
 /-- `lcpAll` is the greatest common ancestor of a non-empty list. -/
-theorem isAnc_foldl_lcp (r : Path) : ∀ (rest : List Path) (p : Path),
+theorem isAnc_foldl_lcp' (r : Path) : ∀ (rest : List Path) (p : Path),
     isAnc r (rest.foldl lcp p) = true ↔ isAnc r p = true ∧ ∀ q ∈ rest, isAnc r q = true := by
   intro rest
   induction rest with
@@ -632,11 +632,11 @@ theorem isAnc_foldl_lcp (r : Path) : ∀ (rest : List Path) (p : Path),
     · rintro ⟨h1, h2, h3⟩
       exact ⟨isAnc_lcp h1 h2, h3⟩
 
-theorem isAnc_lcpAll (r : Path) (L : List Path) (hL : L ≠ []) :
+theorem isAnc_lcpAll' (r : Path) (L : List Path) (hL : L ≠ []) :
     isAnc r (lcpAll L) = true ↔ ∀ q ∈ L, isAnc r q = true := by
   cases L with
   | nil => exact absurd rfl hL
-  | cons p rest => simp [lcpAll, isAnc_foldl_lcp]
+  | cons p rest => simp [lcpAll, isAnc_foldl_lcp']
 
 /-- `lcpAll` only depends on the set of paths. -/
 theorem lcpAll_congr {L L' : List Path} (hL : L ≠ []) (h : ∀ q, q ∈ L ↔ q ∈ L') :
@@ -645,12 +645,12 @@ theorem lcpAll_congr {L L' : List Path} (hL : L ≠ []) (h : ∀ q, q ∈ L ↔ 
     obtain ⟨x, hx⟩ := List.exists_mem_of_ne_nil L hL
     intro e; rw [e] at h; exact absurd ((h x).mp hx) (by simp)
   apply isAnc_antisymm
-  · rw [isAnc_lcpAll _ _ hL']
+  · rw [isAnc_lcpAll' _ _ hL']
     intro q hq
-    exact (isAnc_lcpAll _ _ hL).mp (isAnc_refl _) q ((h q).mpr hq)
-  · rw [isAnc_lcpAll _ _ hL]
+    exact (isAnc_lcpAll' _ _ hL).mp (isAnc_refl _) q ((h q).mpr hq)
+  · rw [isAnc_lcpAll' _ _ hL]
     intro q hq
-    exact (isAnc_lcpAll _ _ hL').mp (isAnc_refl _) q ((h q).mp hq)
+    exact (isAnc_lcpAll' _ _ hL').mp (isAnc_refl _) q ((h q).mp hq)
 
 theorem lcpAll_map {φ : Path → Path} (hφ : PathEmb φ) (L : List Path) (hL : L ≠ []) :
     lcpAll (L.map φ) = φ (lcpAll L) := by
